@@ -479,10 +479,12 @@ impl TcCache {
         self.inner
             .insert_with(make_lru_key_path(&tc.archive_id), with)?;
         let verified_archive_id = file_key(self.get(tc)?)?;
-        // TODO: remove created toolchain?
         if verified_archive_id == tc.archive_id {
             Ok(())
         } else {
+            // Do not keep an archive under an id it does not hash to: `contains_toolchain`
+            // would report it as present and later jobs would run with the wrong toolchain.
+            let _ = self.inner.remove(make_lru_key_path(&tc.archive_id));
             Err(anyhow!("written file does not match expected hash key"))
         }
     }
